@@ -29,6 +29,7 @@ theorem endBlock_burns {L L' : Ledger} (hi : InvSupply L) (hp : PercentsOK L) (h
 transfer with `mint` set; everything else only moves tokens -/
 def txMint (L : Ledger) (sender : Addr) (fee : Nat) : Msg → Nat
   | .send _ _ amount => faucetMint L sender (amount + fee)
+  | .sendVesting _ _ amount _ _ _ => faucetMint L sender (amount + fee)
   | .daoTransfer _ amount true _ _ => amount
   | _ => 0
 
@@ -38,6 +39,7 @@ theorem handleMessage_step {L L' : Ledger} {sender : Addr} {msg : Msg} (hi : Inv
     Step (match msg with | .daoTransfer _ x true _ _ => x | _ => 0) 0 L L' := by
   cases msg with
   | send s d x => exact handleSend_moves h
+  | sendVesting s d x st cl en => exact handleSendVesting_moves h
   | stake a x cs dl c o => exact handleStake_moves h
   | editStake a x cs c o => exact handleEditStake_moves hi h
   | unstake a => exact handleUnstake_moves h
@@ -69,9 +71,14 @@ theorem applyTx_step {L L' : Ledger} {sender : Addr} {fee : Nat} {msg : Msg} (hi
             · exact absurd h (by intro h; cases h)
             · next L2 h2 =>
               -- faucet step
-              have s1 : Step (match msg with | .send _ _ amount => faucetMint L sender (amount + fee) | _ => 0) 0 L L1 := by
+              have s1 : Step (match msg with | .send _ _ amount => faucetMint L sender (amount + fee) | .sendVesting _ _ amount _ _ _ => faucetMint L sender (amount + fee) | _ => 0) 0 L L1 := by
                 cases msg with
                 | send s d x =>
+                  simp only [txFaucet] at h1
+                  split at h1
+                  · exact absurd h1 (by intro h; cases h)
+                  · exact faucetTopUp_mints (by simpa [txMint] using hx) h1
+                | sendVesting s d x st cl en =>
                   simp only [txFaucet] at h1
                   split at h1
                   · exact absurd h1 (by intro h; cases h)
@@ -91,7 +98,7 @@ theorem applyTx_step {L L' : Ledger} {sender : Addr} {fee : Nat} {msg : Msg} (hi
               have := (s1.trans m2).trans s3
               cases msg with
               | daoTransfer a x m s e => cases m <;> simpa [txMint] using this
-              | send | stake | editStake | unstake | pause | unpause | subsidy | changeParameter => simpa [txMint] using this
+              | send | sendVesting | stake | editStake | unstake | pause | unpause | subsidy | changeParameter => simpa [txMint] using this
 
 end Canopy.Ledger
 
